@@ -32,8 +32,9 @@ theorem fltE_written (f : Field) (dec : Nat) (fmt c : Char) (hk : f.kind = .flt 
     have := Proofs.Nearest.two_pow_pos 52
     have := hwf.1; omega
   obtain ⟨r, hr, hfit⟩ := round_of_fits_E f dec fmt c hk hfmt neg m e hm0 hfits
-  obtain ⟨t', h1, _, h3, _, k, ip, fp, eneg, exd, hdig, hteq⟩ :=
+  obtain ⟨t', h1, _, h3, _, m', e', k, _, hsci, hteq⟩ :=
     fltE_core f dec fmt c hk hfmt hc1 hc2 hc3 hc4 hc5 hc6 neg m e hwf hdec r hr hfit
+  have hdig := sciText_digits m' e' dec (by have := hsci.hK1; omega) (by have := hsci.hK2; omega)
   have : t = t' := by rw [h1] at ht; injection ht with ht; exact ht.symm
   subst this
   refine ⟨⟨r, h3⟩, ?_⟩
@@ -44,7 +45,8 @@ theorem fltE_written (f : Field) (dec : Nat) (fmt c : Char) (hk : f.kind = .flt 
   · exact absurd hm.2 (by decide)
   · rcases mem_subst1 _ _ _ _ hm with h | h
     · subst h; revert hsep; decide
-    · rcases bodyE_chars neg ip fp _ eneg exd hdig '\n' h with h | h | h | h | h
+    · unfold sciText at h
+      rcases bodyE_chars neg _ _ _ _ _ hdig '\n' h with h | h | h | h | h
       · exact absurd h (by decide)
       · exact absurd h (by decide)
       · rcases hfmt with rfl | rfl <;> exact absurd h (by decide)
